@@ -284,4 +284,7 @@ def run(ck: Check, repo: Repo) -> None:
     rule_no_mutation(ck, repo)
     from . import c20, c10
     c20.rule_merge(ck, repo, "R6")
-    c10.rule_finder_predicate(ck, repo, "R7")  # an existing header that is not found is not merged either
+    c10.rule_finder_predicate(ck, repo, "R7")
+    # what a run re-renders (the union of old and new information) must be written verbatim (shared with C07-R2)
+    r8 = ck.rule("R8", "template environments write values verbatim (no auto-escaping of re-rendered information)")
+    c07.environments_verbatim(r8, repo)  # an existing header that is not found is not merged either
